@@ -566,6 +566,9 @@ func TestVerifC08(t *testing.T) {
 	if rec.Thorough() {
 		depth = 4
 	}
+	if os.Getenv("VERIF_C08_SKIP_HIST") != "" {
+		depth = 0 // debugging aid: only the concurrent part
+	}
 	ops := alphabet(rec.Thorough())
 	i := 0
 	var collected, closes int64
@@ -640,7 +643,10 @@ func TestVerifC08(t *testing.T) {
 				rec.HarnessError("%s: %s", sc.Name, r.Violation)
 				return
 			}
-			if r.Violation != "" {
+			if r.Violation != "" && strings.HasPrefix(r.VKey, "observed:") {
+				// an outcome that is counted, not judged, needs no confirmation (it is not a verdict)
+				rec.Violation(r.VKey+" conc "+sc.Name+tagS, r.Violation+"\nschedule: "+c.Describe(), replay{Part: "conc", Scen: si, Choices: explore.Trim(c.Choices()), Stall: stall})
+			} else if r.Violation != "" {
 				for k := 0; k < 3; k++ {
 					if r2 := run(explore.NewCtx(c.Choices())); r2.VKey != r.VKey {
 						rec.HarnessError("violation %q of %s not reproduced", r.VKey, sc.Name)
